@@ -236,7 +236,7 @@ func c33GenIP(t *rapid.T, v6 bool, label string) string {
 func TestVerifC33Tables(t *testing.T) {
 	ev.Quiet()
 	rec := ev.New("C33", "tables",
-		"backend sets of 1..64 ip:port endpoints (clustered addresses/ports so names differ in one character; v4 or v6), table size = Config.BPFLUTSizeMaglev() for a drawn (max endpoints, max services) pair (small endpoint settings favoured, so that backends can outnumber slots; 1/6 of the cases have both settings large), two further insertion orders with duplicate adds; non-trivial = >=2 backends and an insertion order that differs from the first; distinct = (table size, backend names)",
+		"backend sets of 1..64 ip:port endpoints (clustered addresses/ports so names differ in one character; v4 or v6), table size = Config.BPFLUTSizeMaglev() for a drawn (max endpoints, max services) pair (small endpoint settings favoured, so that backends can outnumber slots; 1/6 of the cases have both settings large), two further insertion orders with duplicate adds, plus one object that learns the set incrementally with Generate() calls in between; non-trivial = >=2 backends and an insertion order that differs from the first; distinct = (table size, backend names)",
 		"hash functions are fnv.New32() twice, as the only production caller constructs them",
 		"reference = Maglev Algorithm 1 with FNV-1 offsets/skips (seed bytes 0x00/0x0a prefixed) read little-endian and turns taken in name order")
 	defer rec.Write()
@@ -353,9 +353,54 @@ func TestVerifC33Tables(t *testing.T) {
 			}
 		}
 
+		// incremental learning: one ConsistentHash object learns the backends in yet another
+		// order, generating tables in between (a node that built a table before it knew all the
+		// backends).  Every intermediate table must be the table of the set learned so far, the
+		// final one the table every other node computes, and re-generating must change nothing.
+		incremental := false
+		if n >= 2 {
+			perm := rapid.Permutation(eps).Draw(t, "incrementalOrder")
+			ch := consistenthash.New(m, fnv.New32(), fnv.New32())
+			var learned []string
+			gens := 0
+			for i, e := range perm {
+				ch.AddBackend(e)
+				learned = append(learned, e.String())
+				if i == len(perm)-1 || rapid.IntRange(0, 3).Draw(t, "generateHere") == 0 {
+					if i < len(perm)-1 {
+						incremental = true
+					}
+					gens++
+					reps := 1
+					if rapid.IntRange(0, 3).Draw(t, "generateTwice") == 0 {
+						reps = 2
+					}
+					for r := 0; r < reps; r++ {
+						lutI := ch.Generate()
+						want := got
+						if i < len(perm)-1 {
+							want = c33Reference(m, learned)
+						}
+						if len(lutI) != m {
+							t.Fatalf("incremental table has %d slots, expected %d", len(lutI), m)
+						}
+						for j := range lutI {
+							if lutI[j] == nil || lutI[j].String() != want[j] {
+								t.Fatalf("a node that learned the backends incrementally (AddBackend/Generate interleaved, table #%d, generated %d time(s)) has %v in slot %d, a node that learned the same %d backends at once has %q (size %d)\nlearning order so far: %v\none-shot order: %v",
+									gens, r+1, lutI[j], j, len(learned), want[j], m, learned, names)
+							}
+						}
+					}
+				}
+			}
+		}
+
 		sorted := append([]string(nil), names...)
 		sort.Strings(sorted)
 		var cl []string
+		if incremental {
+			cl = append(cl, "incremental-learning")
+		}
 		switch {
 		case n == 1:
 			cl = append(cl, "single-backend")
